@@ -9,3 +9,42 @@ Proof.
 Qed.
 Lemma routine_unit_blind p : 0 <= p < 1 -> routine_prob_gen p 1 = p.
 Proof. intros Hp. unfold routine_prob_gen. rewrite Rpower_1 by lra. ring. Qed.
+
+(* ---- sexual networks: per-act transmission compounded over acts x dt acts per step (networks.py SexualNetwork.net_beta, generated) *)
+Lemma sexual_survival b acts dt : 0 <= b < 1 -> 1 - sexual_net_beta_gen 1 b acts dt = Rpower (1 - b) (acts * dt).
+Proof. intros Hb. unfold sexual_net_beta_gen. change (IZR 1) with 1. ring. Qed.
+
+Lemma ln_Rpower x y : 0 < x -> ln (Rpower x y) = y * ln x.
+Proof. intros Hx. unfold Rpower. apply ln_exp. Qed.
+
+(* with a per-act probability b (a plain number), the hazard per unit time is acts x (-ln(1-b)) whatever the step *)
+Lemma sexual_hazard_step_free b acts dt : 0 <= b < 1 -> 0 < dt ->
+  - ln (1 - sexual_net_beta_gen 1 b acts dt) / dt = acts * - ln (1 - b).
+Proof. intros Hb Hd. rewrite sexual_survival by exact Hb. rewrite ln_Rpower by lra. field. lra. Qed.
+
+(* and the per-step probabilities of one unit of time compound to the per-unit-time probability 1 - (1-b)^acts *)
+Lemma sexual_compounds b acts dt : 0 <= b < 1 -> 0 < dt ->
+  Rpower (1 - sexual_net_beta_gen 1 b acts dt) (/ dt) = Rpower (1 - b) acts.
+Proof.
+  intros Hb Hd. rewrite sexual_survival by exact Hb. rewrite Rpower_mult. f_equal. field. lra.
+Qed.
+
+(* a disease beta that is already a per-step probability (ss.beta: 1 - (1-b)^dt) is compounded with dt a second time: the hazard per unit time is
+   proportional to the step *)
+Definition beta_per_step (b dt : R) : R := 1 - Rpower (1 - b) dt.
+Lemma sexual_hazard_time_scaled b acts dt : 0 <= b < 1 -> 0 < dt ->
+  - ln (1 - sexual_net_beta_gen 1 (beta_per_step b dt) acts dt) / dt = dt * (acts * - ln (1 - b)).
+Proof.
+  intros Hb Hd. unfold sexual_net_beta_gen, beta_per_step. change (IZR 1) with 1.
+  replace (1 - 1 * (1 - Rpower (1 - (1 - Rpower (1 - b) dt)) (acts * dt))) with (Rpower (Rpower (1 - b) dt) (acts * dt)) by (replace (1 - (1 - Rpower (1 - b) dt)) with (Rpower (1 - b) dt) by ring; ring).
+  rewrite Rpower_mult, ln_Rpower by lra. field. lra.
+Qed.
+
+Lemma sexual_time_scaled_refuted : exists b acts dt1 dt2, 0 <= b < 1 /\ 0 < dt1 /\ 0 < dt2 /\
+  - ln (1 - sexual_net_beta_gen 1 (beta_per_step b dt1) acts dt1) / dt1 <> - ln (1 - sexual_net_beta_gen 1 (beta_per_step b dt2) acts dt2) / dt2.
+Proof.
+  exists (1/2), 1, 1, (1/2). repeat split; try lra.
+  rewrite !sexual_hazard_time_scaled by lra.
+  assert (H : ln (1 - 1 / 2) < 0). { replace (1 - 1 / 2) with (/ 2) by field. rewrite ln_Rinv by lra. pose proof ln_lt_2. lra. }
+  lra.
+Qed.
